@@ -164,7 +164,8 @@ def check_property(prop, tier='quick', seed=0, only=None, verbose=False):
     # inputs on the REAL code, all post-conditions evaluated in CPython).  Never counted as proved.
     standin = {}
     n_samples = 150 if tier == 'quick' else 1000
-    need = [r for r in results if (r['error'] and r['error']['kind'] == 'undecided') or any(x['status'] == 'undecided' for x in r['records'])]
+    need = [r for r in results if (r['error'] and r['error']['kind'] == 'undecided') or
+            any(x['status'] == 'undecided' or (x['status'] == 'failed' and x['cls'] == 'A') for x in r['records'])]
     if need and not native_err:
         sitems = [{'contract': r['contract'], 'values': {}, 'tag': 'sample:%d' % i, 'sample_seed': seed * 100003 + i}
                   for r in need for i in range(n_samples)]
